@@ -69,6 +69,25 @@ int main(void) {
             out = flatcc_builder_finalize_buffer(&B, &sz);
             if (!ref || !out) printf("FAIL\n"); else { hx_print((uint8_t *)out, sz); printf("\n"); }
             flatcc_builder_free(out); flatcc_builder_clear(&B); free(id);
+        } else if (!strcmp(t[0], "nbuild") && n == 4) {
+            /* nbuild <parent id|null> <nested id|null> <struct align>: a parent table (finished with the parent identifier) whose field 0
+               is a nested buffer (struct root) started with the nested identifier; prints the whole parent buffer */
+            flatcc_builder_t B; uint8_t *pid = 0, *nid = 0; void *out; size_t sz; flatcc_builder_ref_t ref, nref; uint8_t data[256]; size_t al = (size_t)atoi(t[3]); size_t i;
+            for (i = 0; i < sizeof(data); ++i) data[i] = (uint8_t)(0xb0 + (i & 15));
+            if (strcmp(t[1], "null")) hx_decode(t[1], &pid);
+            if (strcmp(t[2], "null")) hx_decode(t[2], &nid);
+            flatcc_builder_init(&B);
+            flatcc_builder_start_buffer(&B, (const char *)pid, 0, 0);
+            flatcc_builder_start_table(&B, 1);
+            flatcc_builder_start_buffer(&B, (const char *)nid, 0, 0);
+            nref = flatcc_builder_create_struct(&B, data, al, (uint16_t)al);
+            nref = flatcc_builder_end_buffer(&B, nref);
+            { flatcc_builder_ref_t *pr = flatcc_builder_table_add_offset(&B, 0); if (pr) *pr = nref; }
+            ref = flatcc_builder_end_table(&B);
+            ref = flatcc_builder_end_buffer(&B, ref);
+            out = flatcc_builder_finalize_buffer(&B, &sz);
+            if (!ref || !nref || !out) printf("FAIL\n"); else { hx_print((uint8_t *)out, sz); printf("\n"); }
+            flatcc_builder_free(out); flatcc_builder_clear(&B); free(pid); free(nid);
         } else printf("BAD\n");
         fflush(stdout);
     }
